@@ -126,7 +126,7 @@ func (e *emitter) probe(ind int, site []int) {
 		did2 := e.base + 500 + e.nextDer
 		e.nextDer++
 		e.sites = append(e.sites, Site{ID: did2, Key: key, Derived: form})
-		e.line(ind, fmt.Sprintf("_lm%d := [vp(%d, a) if a else vp(%d, a)]", did, did, did2))
+		e.line(ind, fmt.Sprintf("_lm%d := [vp(%d, a) if a else vp(%d, a), :pad, 0, nil]", did, did, did2)) // :pad keeps the list a generic ArrayList (a typed native list would turn a stale narrowing into a TypeError)
 	}
 }
 
